@@ -334,6 +334,9 @@ class Profiles:
             self._profilesProperties.clear()
             self._rawProfiles.clear()
             del self._profileNames[:]
+            # macros of removed profiles must not survive
+            self._usedMacros = Profiles._TOKEN_MACROS.copy()
+            self._usedMacros.update(Profiles._MACROS.copy())
         else:
             reset = False
 
